@@ -847,12 +847,30 @@ def r19_rec_bounds(ctx):
                   "found %s" % (n, prm, "+" if op is ast.Add else "-",
                                 [U(s) for s in steps]), P13 + ("C12",))
         # None for single points
-        first = f.node.body[0] if not (isinstance(
-            f.node.body[0], ast.Expr) and isinstance(
-                f.node.body[0].value, ast.Constant)) else f.node.body[1]
-        okn = isinstance(first, ast.If) and "_repetitions == 1" in U(
-            first.test) and isinstance(first.body[0], ast.Return) and \
-            U(first.body[0].value) == "None"
+        # (every return of a point lies on a path that has excluded
+        # `_repetitions == 1`)
+        from ..flow import path_conds as _pcn
+
+        def excludes_single(r):
+            todo = list(_pcn(r))
+            while todo:
+                t, pol = todo.pop()
+                if isinstance(t, ast.UnaryOp) and isinstance(t.op, ast.Not):
+                    todo.append((t.operand, not pol))
+                elif isinstance(t, ast.BoolOp) and (
+                        isinstance(t.op, ast.And) == pol):
+                    todo += [(v, pol) for v in t.values]
+                elif isinstance(t, ast.Compare) and len(t.ops) == 1 and \
+                        isinstance(t.ops[0], (ast.Eq, ast.NotEq)):
+                    sides = {U(t.left), U(t.comparators[0])}
+                    if sides == {"%s._repetitions" % f.self_name, "1"} and \
+                            isinstance(t.ops[0], ast.NotEq) == pol:
+                        return True
+            return False
+        rets_ = [r for r in walk_no_nested(f.node)
+                 if isinstance(r, ast.Return) and r.value is not None and
+                 U(r.value) != "None"]
+        okn = bool(rets_) and all(excludes_single(r) for r in rets_)
         rep.check(okn, rule, ctx.fkey(f, None, "single-point-none"), f.loc(),
                   "returns None for a single-point recurrence",
                   "%s no longer returns None first when repetitions == 1" %
@@ -957,11 +975,18 @@ def r19_rec_bounds(ctx):
         def dnf(conds):
             """conjunction of (test, polarity) -> list of disjuncts, each a
             list of (atom, polarity); None when too wide"""
-            def one(t, pol):
+            def one(t, pol, depth=0):
                 if isinstance(t, ast.UnaryOp) and isinstance(t.op, ast.Not):
-                    return one(t.operand, not pol)
+                    return one(t.operand, not pol, depth)
+                if isinstance(t, ast.Name) and depth < 3:
+                    # a boolean temporary stands for its definition
+                    from ..flow import single_def as _sd
+                    v_ = _sd(f.node, t.id)
+                    if isinstance(v_, (ast.Compare, ast.BoolOp,
+                                       ast.UnaryOp)):
+                        return one(v_, pol, depth + 1)
                 if isinstance(t, ast.BoolOp):
-                    parts = [one(v, pol) for v in t.values]
+                    parts = [one(v, pol, depth) for v in t.values]
                     if isinstance(t.op, ast.And) == pol:
                         out = [[]]
                         for ps in parts:
